@@ -1427,14 +1427,21 @@ package vm
 //@   option trusted
 //@   requires [notstatic] !interpreter.readOnly
 
+// AUTHCALL bumps the nonce of the authorizing account on every call and moves the sponsor's value: it changes the
+// world state whatever its arguments, so it demands a non-static context like the other writers.
+//@ func opAuthCall
+//@   option trusted
+//@   requires [notstatic] !interpreter.readOnly
+
 // The flags of the Rangers entries (proposal 014): every entry whose function demands a non-static context is
-// flagged `writes`. (AUTHCALL, which can transfer value, is not covered.)
+// flagged `writes`.
 //@ func doProposal014
 //@   property C12
 //@   requires instructionSet != nil
 //@   ensures [stake]      instructionSet[STAKE] != nil && (@needswrite(instructionSet[STAKE].execute) ==> instructionSet[STAKE].writes)
 //@   ensures [unstake]    instructionSet[UNSTAKE] != nil && (@needswrite(instructionSet[UNSTAKE].execute) ==> instructionSet[UNSTAKE].writes)
 //@   ensures [unstakeall] instructionSet[UNSTAKEALL] != nil && (@needswrite(instructionSet[UNSTAKEALL].execute) ==> instructionSet[UNSTAKEALL].writes)
+//@   ensures [authcall]   instructionSet[AUTHCALL] != nil && (@needswrite(instructionSet[AUTHCALL].execute) ==> instructionSet[AUTHCALL].writes)
 //@   ensures [readers]    instructionSet[GETSTAKE] != nil && instructionSet[STAKENUM] != nil && instructionSet[PRINTF] != nil && instructionSet[AUTH] != nil && instructionSet[AUTHCALL] != nil
 
 // Stack bounds of the Cancun-era entries (C11): an entry that pops p and pushes q items admits a stack of at
